@@ -6,8 +6,8 @@
    Serializer makes at which position - toData, the dedup memo, the three hash routes, stringified values).  An "event tree" `ev` is one top-level call on a
    px.ValueConsumer with the calls its doer makes nested inside (Add / AddRef / AddArray / AddHash). *)
 From Coq Require Import ZArith NArith Bool List.
-From PcoreV Require Import Model.Base Model.Json Model.Pb Model.PbMem Model.JsonSer Model.JsonStr Proofs.JsonProofs Proofs.PbProofs
-  Proofs.PbMemProofs Proofs.JsonSerProofs Proofs.JsonStrProofs.
+From PcoreV Require Import Model.Base Model.Json Model.Pb Model.PbMem Model.JsonSer Model.JsonStr Model.JsonText Proofs.JsonProofs Proofs.PbProofs
+  Proofs.PbMemProofs Proofs.JsonSerProofs Proofs.JsonStrProofs Proofs.JsonTextProofs.
 Import ListNotations.
 Open Scope Z_scope.
 
@@ -399,3 +399,142 @@ Example C11_string_nonvacuous :
   json_unquote [34; 92; 117; 100; 56; 48; 48; 120; 34]%N = Some [239; 191; 189; 120]%N /\
   json_unquote [34; 92; 38; 34]%N = None /\ json_unquote [34; 10; 34]%N = None.
 Proof. repeat split; vm_compute; reflexivity. Qed.
+
+(* ============================================================================================== *)
+(* JSON at the level of the BYTES of the whole text (Model/JsonText.v)                              *)
+
+(* Until here a JSON text was a token list and the step from the bytes the streamer wrote to that list was the
+   harness' tokenizer.  Model/JsonText.v models both sides of that step: `btext` = jsonstreamer.go writing BYTES
+   (delimiter bytes, `{"__pref":%d}`, json.Marshal of a string byte by byte, integers in decimal, true/false/null,
+   a float as the oracle's text + the `.0` of fix 1f092e9) and `lex` = a tokenizer of a whole text (one structurally
+   recursive pass, no fuel); `read_text bs = read (lex bs)` is JsonToData on bytes.
+   ORACLES: `ft` (json.Marshal(float64): bits -> text) and `pf` (strconv.ParseFloat: text -> bits) are arbitrary
+   functions, universally quantified.  The one law used is the BOOLEAN `floats_lawful ft pf e`: for every finite
+   float b of e, the text the streamer completes `ft b` to is an RFC 8259 number lexeme and pf reads it back to b.  It is evaluated with the library's answers on
+   every case of every run (obligation text_model).  Integers are not an oracle. *)
+
+(* The tokens of the bytes written ARE the tokens of the token model - for EVERY event tree (ill-formed ones,
+   NaN/Inf included: an error is an error), any nesting, any strings (a quote or backslash inside a string never ends
+   the lexeme early, the closing quote is found exactly where json.Marshal put it), any integers.  So every theorem
+   above about `stream_top e` is a theorem about the bytes. *)
+Theorem C11_text_lex :
+  forall ft pf e, floats_lawful ft pf e = true -> lex_res pf (btext ft e) = stream_top e.
+Proof. exact text_lex. Qed.
+Print Assumptions C11_text_lex.
+
+(* the byte-level writer never faults and reports an error exactly on NaN/Inf *)
+Theorem C11_text_writer_total :
+  forall ft pf e, floats_lawful ft pf e = true ->
+  match btext ft e with
+  | Ok _ => floats_finite e = true
+  | Err => floats_finite e = false
+  | _ => False
+  end.
+Proof. exact text_writer_total. Qed.
+Print Assumptions C11_text_writer_total.
+
+(* "always produces syntactically valid JSON", of the bytes: they split into lexemes (no TBad: every string lexeme
+   is one, every number matches the RFC 8259 number grammar) that form one RFC 8259 value *)
+Theorem C11_text_always_valid :
+  forall ft pf e, json_wf_all e = true -> floats_lawful ft pf e = true ->
+  exists bs, btext ft e = Ok bs /\ json_valid (lex pf bs) = true.
+Proof. exact text_always_valid. Qed.
+Print Assumptions C11_text_always_valid.
+
+(* "reading it back delivers the same events", from bytes: JsonToData on the bytes NewJsonStreamer wrote *)
+Theorem C11_text_events_roundtrip :
+  forall ft pf e, json_wf e = true -> floats_lawful ft pf e = true ->
+  exists bs, btext ft e = Ok bs /\ read_text pf bs = Ok [json_image e].
+Proof. exact text_events_roundtrip. Qed.
+Print Assumptions C11_text_events_roundtrip.
+
+Theorem C11_text_events_roundtrip_exact :
+  forall ft pf e, json_wf e = true -> data_exact e = true -> floats_lawful ft pf e = true ->
+  exists bs, btext ft e = Ok bs /\ json_valid (lex pf bs) = true /\ read_text pf bs = Ok [e].
+Proof. exact text_events_roundtrip_exact. Qed.
+Print Assumptions C11_text_events_roundtrip_exact.
+
+(* through the far side's BasicCollector, references resolved, arbitrary byte strings *)
+Theorem C11_text_collect_image :
+  forall ft pf e, json_wf e = true -> floats_lawful ft pf e = true ->
+  exists bs, btext ft e = Ok bs /\
+  exists e', read_text pf bs = Ok [e'] /\ collect e' = res_map vimage (collect e).
+Proof. exact text_collect_image. Qed.
+Print Assumptions C11_text_collect_image.
+
+(* end to end for a value, over bytes: from_json (to_json v) = v *)
+Theorem C11_text_data_roundtrip :
+  forall ft pf v, json_wf (events_of v) = true -> data_exact (events_of v) = true ->
+  floats_lawful ft pf (events_of v) = true ->
+  exists bs, btext ft (events_of v) = Ok bs /\ json_valid (lex pf bs) = true /\
+  exists e', read_text pf bs = Ok [e'] /\ collect e' = Ok v.
+Proof. exact text_data_roundtrip. Qed.
+Print Assumptions C11_text_data_roundtrip.
+
+(* serialization.DataToJson (jsonstreamer.go:28) writes the same text followed by a newline: the same tokens, hence the
+   same events *)
+Theorem C11_text_data_to_json_newline :
+  forall ft pf e bs, floats_lawful ft pf e = true -> btext ft e = Ok bs -> lex pf (bs ++ [10%N]) = lex pf bs.
+Proof. exact text_lex_newline. Qed.
+Print Assumptions C11_text_data_to_json_newline.
+
+(* the byte model is discriminating: the variant whose fraction test only looks for a dot (hand-made mutant M5) turns the
+   text 1e+21 into 1e+21.0 - no number lexeme, the tokenizer answers TBad - while the code leaves it a lexeme *)
+Theorem C11_text_fraction_test_refuted :
+  forall pf, lex pf (fix_float_dot text_1e21) = [TBad] /\ num_ok (fix_float text_1e21) = true /\
+             lex pf (fix_float text_1e21) = [TNum (NFrac (pf text_1e21))].
+Proof. exact fraction_test_refuted. Qed.
+Print Assumptions C11_text_fraction_test_refuted.
+
+(* "ANY serializer output", over bytes: Serializer (Model/JsonSer.v) -> NewJsonStreamer, every value with finite floats,
+   every option set; the law is asked of the floats the Serializer hands on *)
+Theorem C11_text_ser_always_valid :
+  forall ft pf rich_data dedup_level v, sval_finite v = true ->
+  floats_lawful ft pf (ser_top (json_cfg rich_data dedup_level) v) = true ->
+  exists bs, btext ft (ser_top (json_cfg rich_data dedup_level) v) = Ok bs /\ json_valid (lex pf bs) = true.
+Proof. exact text_ser_always_valid. Qed.
+Print Assumptions C11_text_ser_always_valid.
+
+(* a text that matches the RFC 8259 number grammar starts with '-' or a digit and holds number characters only, so a
+   tokenizer taking a maximal run of number characters takes exactly the lexeme (why the law needs no more than
+   "is a number lexeme and parses back") *)
+Theorem C11_number_lexeme_shape :
+  forall t, num_ok t = true -> num_shape t = true.
+Proof. exact num_ok_shape. Qed.
+Print Assumptions C11_number_lexeme_shape.
+
+(* "integers keep 64-bit precision" at the level of digits, for every integer (no oracle): the decimal text written is
+   an RFC 8259 number lexeme, integer-looking, and denotes the integer *)
+Theorem C11_int_text_roundtrip :
+  forall z, num_ok (int_text z) = true /\ int_of_text (int_text z) = Some z.
+Proof. exact (fun z => conj (int_text_num_ok z) (int_of_text_int_text z)). Qed.
+Print Assumptions C11_int_text_roundtrip.
+
+(* whatever text the streamer completes a float text to, it is never integer-looking: floats stay floats *)
+Theorem C11_float_text_never_int :
+  forall v, int_of_text (fix_float v) = None.
+Proof. exact (fun v => int_of_text_frac _ (has_frac_fix v)). Qed.
+Print Assumptions C11_float_text_never_int.
+
+(* Non-vacuity: the oracle tables hold json.Marshal / strconv.ParseFloat for 1.0 and 1.5; the law holds of them; the
+   bytes are [-9223372036854775808,[],{K:1.0,"b":{"__pref":3}},1.5,null,true,0] (K = the key a-quote, written "a" + backslash + quote + ""
+   i.e. 34 97 92 34 34) and read back to the events.
+   And the byte level sees what the token level cannot: were the comma between two elements forgotten, [1,2] would be
+   the bytes [12] - VALID JSON with other content (at token level the same slip is merely invalid). *)
+Example C11_text_nonvacuous :
+  let ft := ftab_lookup [(4609434218613702656, [49;46;53]%N); (4607182418800017408, [49]%N)] in
+  let pf := ptab_lookup [([49;46;53]%N, 4609434218613702656); ([49;46;48]%N, 4607182418800017408)] in
+  let e := EArr [EAdd (SInt (-9223372036854775808)); EArr [];
+                 EHash [EAdd (SStr [97;34]%N); EAdd (SFloat 4607182418800017408); EAdd (SStr [98]%N); ERef 3];
+                 EAdd (SFloat 4609434218613702656); EAdd SUndef; EAdd (SBool true); EAdd (SInt 0)] in
+  floats_lawful ft pf e = true /\
+  btext ft e = Ok [91; 45; 57; 50; 50; 51; 51; 55; 50; 48; 51; 54; 56; 53; 52; 55; 55; 53; 56; 48; 56; 44; 91; 93; 44; 123; 34; 97;
+                   92; 34; 34; 58; 49; 46; 48; 44; 34; 98; 34; 58; 123; 34; 95; 95; 112; 114; 101; 102; 34; 58; 51; 125; 125; 44;
+                   49; 46; 53; 44; 110; 117; 108; 108; 44; 116; 114; 117; 101; 44; 48; 93]%N /\
+  (exists bs, btext ft e = Ok bs /\ read_text pf bs = Ok [e]) /\
+  lex pf [91; 49; 50; 93]%N = [LBrack; TNum (NInt 12); RBrack] /\
+  lex pf [45; 48; 32; 48; 49; 32; 110; 117; 108; 108; 120; 34; 97]%N = [TNum (NInt 0); TBad; TBad; TBad].
+Proof.
+  cbv zeta. split; [vm_compute; reflexivity|]. split; [vm_compute; reflexivity|].
+  split; [eexists; split; [vm_compute; reflexivity|vm_compute; reflexivity]|]. split; vm_compute; reflexivity.
+Qed.
